@@ -78,6 +78,9 @@ impl<T: crate::EventSource> TransientSourceState<T> {
         ensures r == (self.st() is None),
 //@ enditem
 //@ item src/sources/transient.rs / impl TransientSource<T> / fn remove props=C18
+//@ rw R1 * <<replace_state(TransientSourceState::Keep)>> => <<replace_state(|x: T| -> (r: TransientSourceState<T>) ensures r == TransientSourceState::Keep(x) { TransientSourceState::Keep(x) })>>
+//@ rw R1 * <<replace_state(TransientSourceState::Register)>> => <<replace_state(|x: T| -> (r: TransientSourceState<T>) ensures r == TransientSourceState::Register(x) { TransientSourceState::Register(x) })>>
+//@ rw R1 * <<replace_state(TransientSourceState::Disable)>> => <<replace_state(|x: T| -> (r: TransientSourceState<T>) ensures r == TransientSourceState::Disable(x) { TransientSourceState::Disable(x) })>>
 //@ rw R1 * <<replace_state(TransientSourceState::Remove)>> => <<replace_state(|x: T| -> (r: TransientSourceState<T>) ensures r == TransientSourceState::Remove(x) { TransientSourceState::Remove(x) })>>
 //@ spec
         // documented: calling this while a replacement is pending drops (leaks) the old source
@@ -136,9 +139,10 @@ impl<T: crate::EventSource> TransientSourceState<T> {
     }
     open spec fn reregister_req(&self) -> bool { crate::sources::obeys_protocol::<T>() && self.st().inv(true) }
     open spec fn reregister_ens(o: &Self, n: &Self, ok: bool) -> bool {
-        // (the Disable start state is stated separately on the impl fn: known finding F6a; a failing
-        //  registration of the NEW child of a Replace leaves the old one unregistered: documented hole)
-        &&& (o.st() is Disable || (!ok && o.st() is Replace) || n.st().inv(true))
+        // (the Disable start state is stated separately on the impl fn: known finding F6a. A failing registration of the NEW
+        //  child of a Replace used to be a hole in this contract; it hid defect F15 -- the old child, already unregistered,
+        //  stayed in the state and was unregistered again by the retry -- and is now part of it)
+        &&& (o.st() is Disable || n.st().inv(true))
         // after a successful re-registration no change is pending: the child is kept (registered), gone, or disabled
         &&& ok ==> (n.st() is Keep || n.st() is None || n.st() is Disable)
         &&& (ok && o.st() is Disable) ==> n.st() is Disable
@@ -173,6 +177,8 @@ impl<T: crate::EventSource> TransientSourceState<T> {
 //@ rw R8 1 <<process_events<F>>> => <<process_events<CbF>>>
 //@ rw R8 1 <<callback: F,>> => <<callback: CbF,>>
 //@ rw R8 1 <<F: FnMut(Self::Event>> => <<CbF: FnMut(Self::Event>>
+//@ rw R1 * <<replace_state(TransientSourceState::Keep)>> => <<replace_state(|x: T| -> (r: TransientSourceState<T>) ensures r == TransientSourceState::Keep(x) { TransientSourceState::Keep(x) })>>
+//@ rw R1 * <<replace_state(TransientSourceState::Register)>> => <<replace_state(|x: T| -> (r: TransientSourceState<T>) ensures r == TransientSourceState::Register(x) { TransientSourceState::Register(x) })>>
 //@ rw R1 * <<replace_state(TransientSourceState::Disable)>> => <<replace_state(|x: T| -> (r: TransientSourceState<T>) ensures r == TransientSourceState::Disable(x) { TransientSourceState::Disable(x) })>>
 //@ rw R1 * <<replace_state(TransientSourceState::Remove)>> => <<replace_state(|x: T| -> (r: TransientSourceState<T>) ensures r == TransientSourceState::Remove(x) { TransientSourceState::Remove(x) })>>
 //@ spec
@@ -192,24 +198,33 @@ impl<T: crate::EventSource> TransientSourceState<T> {
 //@ entry
         proof { broadcast use axiom_droppable; }
 //@ enditem
-//@ item src/sources/transient.rs / impl crate::EventSource for TransientSource<T> / fn register props=C18 ret=r splitarms
+//@ item src/sources/transient.rs / impl crate::EventSource for TransientSource<T> / fn register props=C18,C15 ret=r splitarms
 //@ rw R1 * <<replace_state(TransientSourceState::Keep)>> => <<replace_state(|x: T| -> (r: TransientSourceState<T>) ensures r == TransientSourceState::Keep(x) { TransientSourceState::Keep(x) })>>
+//@ rw R1 * <<replace_state(TransientSourceState::Register)>> => <<replace_state(|x: T| -> (r: TransientSourceState<T>) ensures r == TransientSourceState::Register(x) { TransientSourceState::Register(x) })>>
+//@ rw R1 * <<replace_state(TransientSourceState::Disable)>> => <<replace_state(|x: T| -> (r: TransientSourceState<T>) ensures r == TransientSourceState::Disable(x) { TransientSourceState::Disable(x) })>>
+//@ rw R1 * <<replace_state(TransientSourceState::Remove)>> => <<replace_state(|x: T| -> (r: TransientSourceState<T>) ensures r == TransientSourceState::Remove(x) { TransientSourceState::Remove(x) })>>
 //@ rw R2 * <<|_| TransientSourceState::None>> => <<|_x: T| -> (r: TransientSourceState<T>) requires droppable(_x) ensures r is None { TransientSourceState::None }>>
 //@ entry
         proof { broadcast use axiom_droppable; }
 //@ enditem
-//@ item src/sources/transient.rs / impl crate::EventSource for TransientSource<T> / fn reregister props=C18 ret=r splitarms
+//@ item src/sources/transient.rs / impl crate::EventSource for TransientSource<T> / fn reregister props=C18,C15 ret=r splitarms
 //@ spec
         ensures
             // F6a (known finding): a disabled child is unregistered here but the state does not record it
-            old(self).st() is Disable ==> final(self).st().inv(true),
+            old(self).st() is Disable ==> final(self).st().inv(true), /*@props C18*/
 //@ rw R1 * <<replace_state(TransientSourceState::Keep)>> => <<replace_state(|x: T| -> (r: TransientSourceState<T>) ensures r == TransientSourceState::Keep(x) { TransientSourceState::Keep(x) })>>
+//@ rw R1 * <<replace_state(TransientSourceState::Register)>> => <<replace_state(|x: T| -> (r: TransientSourceState<T>) ensures r == TransientSourceState::Register(x) { TransientSourceState::Register(x) })>>
+//@ rw R1 * <<replace_state(TransientSourceState::Disable)>> => <<replace_state(|x: T| -> (r: TransientSourceState<T>) ensures r == TransientSourceState::Disable(x) { TransientSourceState::Disable(x) })>>
+//@ rw R1 * <<replace_state(TransientSourceState::Remove)>> => <<replace_state(|x: T| -> (r: TransientSourceState<T>) ensures r == TransientSourceState::Remove(x) { TransientSourceState::Remove(x) })>>
 //@ rw R2 * <<|_| TransientSourceState::None>> => <<|_x: T| -> (r: TransientSourceState<T>) requires droppable(_x) ensures r is None { TransientSourceState::None }>>
 //@ entry
         proof { broadcast use axiom_droppable; }
 //@ enditem
 //@ item src/sources/transient.rs / impl crate::EventSource for TransientSource<T> / fn unregister props=C18 ret=r splitarms
+//@ rw R1 * <<replace_state(TransientSourceState::Keep)>> => <<replace_state(|x: T| -> (r: TransientSourceState<T>) ensures r == TransientSourceState::Keep(x) { TransientSourceState::Keep(x) })>>
 //@ rw R1 * <<replace_state(TransientSourceState::Register)>> => <<replace_state(|x: T| -> (r: TransientSourceState<T>) ensures r == TransientSourceState::Register(x) { TransientSourceState::Register(x) })>>
+//@ rw R1 * <<replace_state(TransientSourceState::Disable)>> => <<replace_state(|x: T| -> (r: TransientSourceState<T>) ensures r == TransientSourceState::Disable(x) { TransientSourceState::Disable(x) })>>
+//@ rw R1 * <<replace_state(TransientSourceState::Remove)>> => <<replace_state(|x: T| -> (r: TransientSourceState<T>) ensures r == TransientSourceState::Remove(x) { TransientSourceState::Remove(x) })>>
 //@ rw R2 * <<|_| TransientSourceState::None>> => <<|_x: T| -> (r: TransientSourceState<T>) requires droppable(_x) ensures r is None { TransientSourceState::None }>>
 //@ entry
         proof { broadcast use axiom_droppable; }
